@@ -175,6 +175,11 @@ def r2_threshold(ctx):
         if ratio != Fraction(2, 3):
             r.violation("threshold/ratio", "confirms when present %s %s·total; the property requires the 2/3 threshold" % (">" if strict else ">=", ratio), where)
             continue
+        # "more than two thirds": with `>=` a proof carrying exactly 2/3 of the voting power confirms — two conflicting blocks can then both be confirmed by
+        # signer sets that overlap in only one third (exact, no rounding involved: both sides are integer multiples)
+        if not strict and not d.flags:
+            r.violation("threshold/not-strict", "confirms when %s: exactly two thirds of the voting power is enough, the property requires strictly more" % form, where)
+            continue
         # rounding
         if d.flags:
             fl_on_P = _floor_on(q.as_cmp(e), key, "P")
@@ -294,6 +299,8 @@ def shared(ctx):
     from rules.engine import core
     from rules.props import c13
     core.import_rules(ctx, [c13.r5_epoch_filters], "X13")
+    from rules.props import c01
+    core.import_rules(ctx, [c01.r10_no_wraparound], "X01")     # a vote tally that wraps around is not the voting power present
 
 
 RULES = [r1_signature_gate, r2_threshold, r3_sources, shared]
